@@ -116,7 +116,7 @@ fn viol(o: &Obs, rep: &mut Report, ty: &str, fault: &str, kind: &str, detail: St
 fn first_diff(a: &[u8], b: &[u8]) -> usize { a.iter().zip(b).position(|(x, y)| x != y).unwrap_or(a.len().min(b.len())) }
 
 /// all faults on one object
-fn fault_object(o: &Obs, rep: &mut Report, env: &Env, item: &Item, rng: &mut Rng) {
+fn fault_object(o: &Obs, rep: &mut Report, env: &Env, item: &Item, rng: &mut Rng, max_offsets: usize) {
     let obj = &item.obj;
     let ty = obj.type_name();
     let scheme = o.spec.scheme_name();
@@ -129,7 +129,15 @@ fn fault_object(o: &Obs, rep: &mut Report, env: &Env, item: &Item, rng: &mut Rng
     let expected = match lib(|| obj.expected(env)) { Ok(e) => e, Err(_) => { rep.count("skipped", "expand_failed"); return; } };
     let len = reference.len();
     rep.min("encoding_bytes", len as f64); rep.max("encoding_bytes", len as f64);
-    let (offs, complete) = offsets(len, &rec.calls, rng);
+    let (mut offs, mut complete) = offsets(len, &rec.calls, rng);
+    if offs.len() > max_offsets {
+        // large encodings: both ends densely (headers, lengths, seed block), the body by uniform samples and block-size neighbourhoods
+        complete = false;
+        let mut keep: std::collections::BTreeSet<usize> = offs.iter().copied().filter(|&x| x < 400 || x + 400 >= len).collect();
+        for b in [4096usize, 8192, 16384, 65536, 131072] { for d in 0..6 { for x in [b * (1 + d) - 1, b * (1 + d), b * (1 + d) + 1] { if x < len { keep.insert(x); } } } }
+        while keep.len() < max_offsets { keep.insert(offs[rng.usize_below(offs.len())]); }
+        offs = keep.into_iter().collect();
+    }
     rep.count("offset_enumeration", if complete { "every_offset" } else { "boundaries_and_samples" });
     rep.count("objects_by_type", &ty);
     let mut runs = 0u64;
@@ -213,16 +221,18 @@ fn fault_object(o: &Obs, rep: &mut Report, env: &Env, item: &Item, rng: &mut Rng
     }
 }
 
-fn one_case(cfg: &Cfg, grp: &str, case: u64, rng: &mut Rng, rep: &mut Report) {
-    let Some(spec) = gen_spec(rng, &[4, 8, 16], 3, 33) else { rep.count("generator", "no_primes_for_sizes"); return; };
-    let opts = ZooOpts { max_size: 4, light: false, rnsp: rng.chance(1, 2), terms_ntt_max_n: 64 };
+fn one_case(cfg: &Cfg, grp: &str, case: u64, rng: &mut Rng, rep: &mut Report, large: bool) {
+    let spec = if large { (0..8).find_map(|_| gen_spec(rng, &[1024, 2048, 4096], 2, 33)) } else { gen_spec(rng, &[4, 8, 16], 3, 33) };
+    let Some(spec) = spec else { rep.count("generator", "no_primes_for_sizes"); return; };
+    let (max_bytes, max_offsets) = if large { (600_000usize, 1500usize) } else { (8192usize, usize::MAX) };
+    let opts = if large { ZooOpts { max_size: 3, light: true, rnsp: false, terms_ntt_max_n: 64 } } else { ZooOpts { max_size: 4, light: false, rnsp: rng.chance(1, 2), terms_ntt_max_n: 64 } };
     let zoo = match build_zoo(&spec, rng, &opts) { Ok(z) => z, Err(_) => { rep.count("generator", "context_rejected"); return; } };
     rep.count("generator", "context_ok");
     rep.count("params", &format!("{}|n={}|k={}", spec.scheme_name(), spec.n, spec.qs.len()));
     for &q in &spec.qs { rep.count("coeff_prime_bytes", &byte_width(q).to_string()); }
     let o = Obs { cfg, grp, case, spec: &spec };
     // per case: a bounded number of instances of every type/format, chosen at random; encodings of at most 8 KiB
-    let cap = cfg.pick(2usize, 4usize);
+    let cap = if large { 1 } else { cfg.pick(2usize, 4usize) };
     let mut by_type: BTreeMap<String, Vec<usize>> = BTreeMap::new();
     for (i, it) in zoo.items.iter().enumerate() { if !it.out_of_domain { by_type.entry(it.obj.type_name()).or_default().push(i); } }
     for (_, mut idx) in by_type {
@@ -231,15 +241,17 @@ fn one_case(cfg: &Cfg, grp: &str, case: u64, rng: &mut Rng, rep: &mut Report) {
         for i in idx {
             if taken >= cap { break; }
             let item = &zoo.items[i];
-            match encode(&item.obj, &zoo.env) { Ok(Ok((_, b))) if b.len() <= 8192 => {}, Ok(Ok(_)) => { rep.count("skipped", "encoding_above_8KiB"); continue; } _ => continue }
-            fault_object(&o, rep, &zoo.env, item, rng);
+            match encode(&item.obj, &zoo.env) { Ok(Ok((_, b))) if b.len() <= max_bytes => {}, Ok(Ok(_)) => { rep.count("skipped", if large { "encoding_above_600KB" } else { "encoding_above_8KiB" }); continue; } _ => continue }
+            fault_object(&o, rep, &zoo.env, item, rng, max_offsets);
             taken += 1;
         }
     }
 }
 
 pub fn run(cfg: &Cfg, rep: &mut Report) -> PropMeta {
-    run_cases(cfg, "faults", cfg.n(400, 4000) as u64, rep, |i, rng, rep| one_case(cfg, "faults", i, rng, rep));
+    run_cases(cfg, "faults", cfg.n(400, 4000) as u64, rep, |i, rng, rep| one_case(cfg, "faults", i, rng, rep, false));
+    // large encodings (N = 1024..4096: tens to hundreds of kilobytes): block-wise or buffered I/O paths only differ from the small ones up there
+    run_cases(cfg, "faults_large_objects", cfg.n(1, 24) as u64, rep, |i, rng, rep| one_case(cfg, "faults_large_objects", i, rng, rep, true));
     PropMeta {
         id: "C15", level: "fault_enumeration",
         rule: "for every generated object (the C14 zoo: every serializable type and format, N in {4,8,16}, 1..3 primes on byte-width edges, all schemes; 2 (quick) / 4 (thorough) random instances per type per parameter set; encodings 8 B..8 KiB): short-write schedules all-1, all-3, 1..8 cycling, random; a failing writer at EVERY offset f in [0,len] (hard and after-partial-accept variants); a truncated reader at EVERY offset n in [0,len); short-read schedules. `exhaustive` refers to the offset dimension of the encodings of at most 4096 bytes (table offset_enumeration: every_offset); larger encodings use all offsets within 64 bytes of a field boundary (start/end of every multi-byte scalar and of every byte run) + stride 61 + 64 random offsets; the object dimension is sampled",
